@@ -444,6 +444,38 @@ func c04Tamperings(c *Ctx, b c04Built, hashVariants bool) []c04Tamper {
 		add("hash-first-char", "x", setHash(string(alpha[(strings.IndexByte(alpha, s0[0])+1)%64])+s0[1:]))
 		add("hash-lowercased", "x", setHash(strings.ToLower(s0)+"A"))
 	}
+	// a hash fault TOGETHER with each key that is discarded on receipt: what surfaces is the
+	// redacted form of the event without that key (in particular not a sender-chosen event_id,
+	// which redaction keeps, where the ID is a hash); the redactable fault leaves ID and
+	// signatures as they were, the replaced hash need not
+	combos := [][2]string{{"unsigned", `{"age":1,"redacted_because":{"x":"y"}}`}, {"age_ts", "12345"}, {"outlier", "true"},
+		{"destinations", `["evil.example"]`}, {"event_id", `"$forged:a"`}, {"event_id", `"$` + strings.Repeat("A", 43) + `"`}}
+	if !hashVariants { // the first variant of every type (and the thorough tier) gets the whole family
+		combos = combos[4:5]
+	}
+	for _, kv := range combos {
+		k, v := kv[0], kv[1]
+		class := cls(c04ContentKept(ver, typ, "zzz_extra"))
+		if k == "event_id" && (ver == "1" || ver == "2") {
+			class = "p"
+		}
+		add("content-add+stripped "+k+" "+v[:min(len(v), 8)], class, func(m map[string]json.RawMessage) {
+			c04SetContent(m, "zzz_extra", `"x"`, false)
+			m[k] = json.RawMessage(v)
+		})
+		add("hash-other+stripped "+k+" "+v[:min(len(v), 8)], "p", func(m map[string]json.RawMessage) {
+			m["hashes"] = json.RawMessage(`{"sha256":"` + spec.Base64Bytes(bytes.Repeat([]byte{7}, 32)).Encode() + `"}`)
+			m[k] = json.RawMessage(v)
+		})
+	}
+	add("content-add+all-stripped", "x", func(m map[string]json.RawMessage) {
+		c04SetContent(m, "zzz_extra", `"x"`, false)
+		m["unsigned"], m["age_ts"], m["outlier"] = json.RawMessage(`{"age":3}`), json.RawMessage("1"), json.RawMessage("false")
+		m["destinations"] = json.RawMessage(`[]`)
+		if ver != "1" && ver != "2" {
+			m["event_id"] = json.RawMessage(`"$forged:a"`)
+		}
+	})
 	// two at once
 	add("content-add+unsigned", cls(c04ContentKept(ver, typ, "zzz_extra")), func(m map[string]json.RawMessage) {
 		c04SetContent(m, "zzz_extra", `{"deep":[1,{"x":null}]}`, false)
